@@ -91,6 +91,10 @@ func vfAttrValue(kind string) interface{} {
 		return uint8(200)
 	case "i64":
 		return int64(-1 << 40)
+	case "i64b":
+		return int64(77)
+	case "f32b":
+		return float32(2.75)
 	case "u16":
 		return uint16(65535)
 	case "u32":
